@@ -196,11 +196,11 @@ fn ob_expected_lane_count_codes(frame: &FrameSpec, layer: u8) -> bool {
 }
 
 fn ib_lane(id_lane: u8, bc: u8, hits: &[Hit], chip_id: Option<u8>) -> LaneSpec {
-    LaneSpec { id: words::ib_id(id_lane), chips: vec![Chip { id: chip_id.unwrap_or(id_lane), bc, empty: hits.is_empty(), hits: hits.to_vec(), flags: 0 }], prefix: vec![] }
+    LaneSpec { id: words::ib_id(id_lane), chips: vec![Chip { id: chip_id.unwrap_or(id_lane), bc, empty: hits.is_empty(), hits: hits.to_vec(), flags: 0, pad_before: 0 }], prefix: vec![] }
 }
 
 fn ob_lane(id: u8, bc: u8, hits: &[Hit], ids: &[u8]) -> LaneSpec {
-    LaneSpec { id, chips: ids.iter().map(|c| Chip { id: *c, bc, empty: false, hits: hits.to_vec(), flags: 0 }).collect(), prefix: vec![] }
+    LaneSpec { id, chips: ids.iter().map(|c| Chip { id: *c, bc, empty: false, hits: hits.to_vec(), flags: 0, pad_before: 0 }).collect(), prefix: vec![] }
 }
 
 struct Case {
@@ -260,7 +260,7 @@ fn cases(tier: Tier) -> Vec<Case> {
         match mutate {
             0 => lanes[1].chips[0].id = 7,
             1 => {
-                let extra = Chip { id: 4, bc: 0x44, empty: true, hits: vec![], flags: 0 };
+                let extra = Chip { id: 4, bc: 0x44, empty: true, hits: vec![], flags: 0, pad_before: 0 };
                 lanes[1].chips[0].id = 3;
                 lanes[1].chips.push(extra);
             }
@@ -354,6 +354,36 @@ fn cases(tier: Tier) -> Vec<Case> {
                     want.insert("E73".to_string());
                 }
                 v.push(Case { label: format!("layer {layer} {label}{}", if key.chip_count_ob.is_some() { " (custom checks)" } else { "" }), cfg: cfg.clone(), key, frames: vec![f], want: vec![Some(want)] });
+            }
+        }
+    }
+    // ---- OB lane forms: every mix of empty-frame / header+trailer chips in one lane x padding bytes in front of one
+    //      chip, once conforming and once with a deviating bunch counter on the last chip (must be seen: E75)
+    {
+        let mut cfg = LinkCfg::ol(1, 6, false);
+        let legal = cfg.lanes.clone();
+        cfg.lanes = (0..4u8).flat_map(|c| (0..7u8).map(move |i| words::ob_id(c, i))).collect();
+        let forms: Vec<u32> = (0..128).collect();
+        for form in forms {
+            for (pad_chip, pad) in std::iter::once((0usize, 0u8)).chain((1..7usize).flat_map(|j| (1..=3u8).map(move |k| (j, k)))) {
+                for bad in [false, true] {
+                    let mut lanes: Vec<LaneSpec> = legal.iter().map(|id| ob_lane(*id, 0x33, &[ha[0]], &(0..7).collect::<Vec<u8>>())).collect();
+                    for (j, c) in lanes[2].chips.iter_mut().enumerate() {
+                        if form & (1 << j) != 0 {
+                            c.empty = true;
+                            c.hits.clear();
+                        }
+                        if j == pad_chip {
+                            c.pad_before = pad;
+                        }
+                    }
+                    if bad {
+                        lanes[2].chips[6].bc = 0x34;
+                    }
+                    let f = FrameSpec { lanes, nodata_before: false, split: None };
+                    let want = expected_codes(&f, &none, &stave_key());
+                    v.push(Case { label: format!("OL lane form {form:#09b} pad {pad} before chip {pad_chip}{}", if bad { " (last chip BC differs)" } else { "" }), cfg: cfg.clone(), key: stave_key(), frames: vec![f], want: vec![Some(want)] });
+                }
             }
         }
     }
